@@ -31,12 +31,16 @@ type DeadCase struct {
 	Eng   EngCfg        `json:"eng"`
 	Ops   []DOp         `json:"ops"`
 	DialTimeoutMs int   `json:"dial_timeout_ms,omitempty"` // > 0: the connection is made with DialAsyncTimeout instead of being accepted
+	InCallbackUs  int   `json:"in_callback_us,omitempty"`  // > 0 (dialed): a write deadline of this length is set inside the dial callback
 }
 
 func genDeadCase(r *simrt.Rand, tier string) *DeadCase {
 	c := genDeadCase0(r, tier)
 	if r.Bool(0.15) {
 		c.DialTimeoutMs = r.Pick(1, 50, 1000)
+		if r.Bool(0.5) {
+			c.InCallbackUs = r.Pick(100, 5000, 100000)
+		}
 	}
 	return c
 }
@@ -116,6 +120,7 @@ func runDead(t *testing.T, ci interface{}, trace bool) *common.Outcome {
 		}
 		defer w.StopAll()
 		var cs *ConnState
+		var preSet *dlEntry
 		if c.DialTimeoutMs > 0 {
 			// a connection made by an asynchronous dial with a timeout: the dial timer must be
 			// gone once the connection is established, or it shadows the deadlines set later
@@ -132,6 +137,14 @@ func runDead(t *testing.T, ci interface{}, trace bool) *common.Outcome {
 				cs.DialCB++
 				cs.DialErr = err
 				if err == nil && nc != nil {
+					if c.InCallbackUs > 0 {
+						// what an application does to bound its first write: it must survive the
+						// end of the dial (whose own timer lives in the same slot)
+						now := time.Now()
+						preSet = &dlEntry{kind: 'w', at: now.Add(time.Duration(c.InCallbackUs) * time.Microsecond), setAt: now}
+						nc.SetWriteDeadline(preSet.at)
+						preSet.setAt = time.Now()
+					}
 					cs.C = nc
 					w.byC[nc] = cs
 					if ks := w.K.SockOf(ProbeFD(nc)); ks != nil && ks.Peer() != nil {
@@ -166,6 +179,9 @@ func runDead(t *testing.T, ci interface{}, trace bool) *common.Outcome {
 		}
 		nc := cs.C
 		var hist []*dlEntry
+		if preSet != nil {
+			hist = append(hist, preSet)
+		}
 		var closeAt time.Time
 		var closeErr error
 		closedSeen := false
